@@ -23,7 +23,8 @@ pub struct Cell1(pub u64);
 pub fn concrete_id(c: u8) -> ResourceId {
     match c {
         0 => ResourceId::new_with_dynamic_id::<Cell0>(0),
-        1 => ResourceId::new_with_dynamic_id::<Cell0>(1),
+        // (concrete 1 and 3 share the NON-ZERO dynamic id 7 across the two Rust types: an id is the pair)
+        1 => ResourceId::new_with_dynamic_id::<Cell0>(7),
         2 => ResourceId::new_with_dynamic_id::<Cell1>(0),
         3 => ResourceId::new_with_dynamic_id::<Cell1>(7),
         4 => ResourceId::new_with_dynamic_id::<Cell0>(0x1_0000_0001),
